@@ -35,3 +35,12 @@ uint64_t executions();
 void set_case_blob(const std::string& blob);
 
 }  // namespace vp
+
+// Enumeration front end shared by targets whose cases are too slow for libFuzzer's
+// mutation loop to pay off: `<bin>_enum <ncases> <len> <shard> <nshards>` runs the
+// fuzz entry point on ncases byte strings derived from (VERIF_SEED, case index) by
+// splitmix64; `<bin>_enum --replay FILE` runs it on a saved case.  The case bytes
+// are written to VP_STATS_DIR/case.<pid>.bin before each case so that an abort
+// (assertion, sanitizer) leaves its input behind.
+extern "C" int LLVMFuzzerTestOneInput(const uint8_t* data, size_t size);
+namespace vp { int enum_main(int argc, char** argv); void persist_case_blob(); void remove_case_blob(); }
